@@ -83,10 +83,24 @@ EXC_CLASSES = [sqlite3.OperationalError, sqlite3.IntegrityError, sqlite3.Program
 FOREIGN_EXC = [MemoryError, KeyboardInterrupt]    # not dbapi exceptions: wrap_dbapi_exceptions lets them through
 
 
+INIT_GUARD = [False]   # which SQLitePool._connect the tree under test has (probed on the real code by `probe_init_guard`)
+
+
 def session_cfg(opts, reconnect):
     ddl = bool(opts.get('ddl'))
     immediate = bool(opts.get('immediate')) or ddl or bool(opts.get('serializable')) or not opts.get('optimistic', True)
-    return {'immediate': immediate, 'ddl': ddl, 'reconnect': reconnect}
+    return {'immediate': immediate, 'ddl': ddl, 'reconnect': reconnect, 'initGuard': INIT_GUARD[0]}
+
+
+def probe_init_guard(ctx, workdir):
+    """Model/ConnLock.lean has both variants of SQLitePool._connect (Cfg.initGuard).  Which one the tree has is observed, not
+    assumed: let the first PRAGMA of the first connect of a thread fail and look at pool.con."""
+    case = {'id': 999998, 'shape': 'read', 'pool': 'fresh', 'faults': [1], 'reconnect': False, 'exc_class': sqlite3.OperationalError}
+    r = real_case(workdir, case)
+    st = r['sessions'][0]['state'] if r.get('sessions') else {}
+    INIT_GUARD[0] = bool(r.get('sessions')) and st.get('poolCon') is None and 2 in st.get('closed', [])
+    ctx.extra['sqlitepool_connect_variant'] = 'guarded (connection closed when its initialisation fails)' if INIT_GUARD[0] else 'as released (pool.con assigned before initialisation)'
+
 
 
 # ---------------------------------------------------------------------------------------------------------------------
@@ -657,6 +671,8 @@ def run(ctx):
         ctx.note('driver unavailable: correspondence skipped, property oracle only')
     workdir = ponyutil.workdir('c19')
     try:
+        probe_init_guard(ctx, workdir)
+        _BASE.clear()
         cases = generate_cases(ctx) if ctx.driver.ok else []
         t0 = time.time()
         reals = run_cases(ctx, cases, workdir)
@@ -676,6 +692,7 @@ def replay(ctx, data):
     if 'shape' not in inp: return run(ctx)
     workdir = ponyutil.workdir('c19')
     try:
+        probe_init_guard(ctx, workdir)
         exc = getattr(sqlite3, inp.get('exc_class', 'OperationalError'), None) or {'MemoryError': MemoryError, 'KeyboardInterrupt': KeyboardInterrupt}[inp['exc_class']]
         case = {'id': 0, 'shape': inp['shape'], 'pool': inp['pool'], 'faults': inp['faults'], 'reconnect': inp.get('reconnect', False), 'exc_class': exc}
         reals = {0: real_case(workdir, case)}
